@@ -48,6 +48,9 @@ type Loader struct {
 	visitedRefs map[string]struct{}
 	visitedPath []string
 	backtrack   map[string][]func(value any)
+
+	// resolveDepth counts the calls of ResolveRefsIn in progress (documents referring to documents)
+	resolveDepth int
 }
 
 // NewLoader returns an empty Loader
@@ -174,12 +177,15 @@ func (loader *Loader) loadFromDataWithPathInternal(data []byte, location *url.UR
 	loader.visitedDocuments[uri] = doc
 
 	if err := unmarshal(data, doc, IncludeOrigin); err != nil {
+		// a document that could not be loaded is not a visited document
+		delete(loader.visitedDocuments, uri)
 		return nil, err
 	}
 
 	doc.url = copyURI(location)
 
 	if err := loader.ResolveRefsIn(doc, location); err != nil {
+		delete(loader.visitedDocuments, uri)
 		return nil, err
 	}
 
@@ -195,6 +201,16 @@ func (loader *Loader) ResolveRefsIn(doc *T, location *url.URL) (err error) {
 	if loader.visitedPathItemRefs == nil {
 		loader.resetVisitedPathItemRefs()
 	}
+
+	// An error abandons every reference visit in progress: once the outermost call has
+	// returned, none of them must be left "in progress" for the next use of the loader.
+	loader.resolveDepth++
+	defer func() {
+		loader.resolveDepth--
+		if err != nil && loader.resolveDepth == 0 {
+			loader.resetVisitedPathItemRefs()
+		}
+	}()
 
 	if components := doc.Components; components != nil {
 		for _, name := range componentNames(components.Headers) {
